@@ -261,12 +261,181 @@ def oracle(ctx):
                     ctx.fail('udp', 'a datagram is not handled as the stream datagram+newline',
                              dict(stream=stream.hex(), outcomes=[list(o) for o in outs_u],
                                   ops={k: list(v) for k, v in ops.items()}, udp=True))
-    ctx.oracle_stats = dict(checked=checked)
+    stats = dict(checked=checked)
+    if not ctx.quick():
+        stats['loopback_connections'] = loopback(ctx, 150)
+    ctx.oracle_stats = stats
     ctx.evaluations += checked
+
+
+# ---------------------------------------------------------------------------
+# thorough tier: a real Server (ThreadingTCPServer on an ephemeral loopback port) with a live,
+# stateful device; the client cuts the stream into real TCP segments.  The expected byte stream
+# received by the client is computed by the stream specification run against a second instance
+# of the same device.
+
+def make_loop_system():
+    from simulators.common import ListeningSystem
+
+    class LoopSys(ListeningSystem):
+        """line echo parser with a configurable prefix (custom command set_prefix:p)"""
+
+        def __init__(self):
+            self.line = ''
+            self.prefix = 'R'
+            self.count = 0
+
+        def parse(self, byte):
+            if byte == 'v':
+                raise ValueError('refused')
+            if byte == 'k':
+                raise KeyError('boom')
+            if byte == '\x00':
+                return False
+            if byte == 'n':
+                return None
+            if byte == '\n':
+                self.count += 1
+                out, self.line = '%s%d:%s;' % (self.prefix, self.count, self.line), ''
+                return out
+            self.line += byte
+            return True
+
+        def set_prefix(self, p='R'):
+            self.prefix = p
+            return 'prefix=%s;' % p
+
+        def counter(self):
+            return 'count=%d;' % self.count
+
+        def quiet(self):
+            return None
+
+        def broken(self):
+            raise RuntimeError('broken')
+    return LoopSys
+
+
+def loop_expected(LoopSys, stream):
+    """the stream specification against a live device: bytes the client must receive"""
+    dev = LoopSys()
+    out = b''
+    for i in range(len(stream)):
+        try:
+            r = dev.parse(chr(stream[i]))
+        except Exception:   # noqa
+            r = None
+        if isinstance(r, str) and not isinstance(r, bool) and r and H.encodable(r):
+            out += r.encode('latin-1')
+        body = H.command_at(stream, i)
+        if body is not None:
+            parts = body.split(':')
+            if len(parts) <= 2:
+                params = parts[1].split(',') if len(parts) == 2 and parts[1] else []
+                try:
+                    res = getattr(dev, parts[0])(*params)
+                except Exception:   # noqa
+                    res = None
+                if isinstance(res, str) and H.encodable(res):
+                    out += res.encode('latin-1')
+    return out
+
+
+def loopback(ctx, n):
+    import socket
+    import threading
+    import time
+    from socketserver import ThreadingTCPServer
+    from simulators import server as S
+    rng = ctx.rng
+    LoopSys = make_loop_system()
+    toks = [b'abc\n', b'hello world\n', b'v', b'k', b'\x00', b'n', b'$set_prefix:Q%%%%%', b'$counter%%%%%',
+            b'$quiet%%%%%', b'$broken%%%%%', b'$nosuch:1,2%%%%%', b'$set_prefix:a:b%%%%%', b'$set_prefix%%%%%',
+            b'$x$counter%%%%%', b'%%%%%', b'$counter%%%%', b'\n', b'xy', b'$counter:1%%%%%', b'\xe9\xff\n']
+    done = 0
+    for it in range(n):
+        stream = b''.join(rng.choice(toks) for _ in range(rng.randrange(1, 8)))
+        if H.has_reserved(stream) or b'system_stop' in stream:
+            continue
+        full = stream + b'$system_stop%%%%%'
+        expected = loop_expected(LoopSys, full)
+        cuts = sorted(set(rng.randrange(1, len(full)) for _ in range(rng.randrange(0, 6))))
+        segs = [full[a:b] for a, b in zip([0] + cuts, cuts + [len(full)])]
+        srv = thread = None
+        saved = {k: S.ListenHandler.__dict__.get(k) for k in ('system', 'stop')}
+        try:
+            srv = S.Server(LoopSys, ThreadingTCPServer, {}, l_address=('127.0.0.1', 0))
+            port = srv.servers[0].server_address[1]
+            thread = threading.Thread(target=srv.serve_forever, daemon=True)
+            thread.start()
+            got = b''
+            closed = False
+            with socket.create_connection(('127.0.0.1', port), timeout=20) as c:
+                c.setsockopt(socket.IPPROTO_TCP, socket.TCP_NODELAY, 1)
+                for s in segs:
+                    c.sendall(s)
+                    time.sleep(0.002)
+                c.settimeout(20)
+                try:
+                    while len(got) < len(expected):
+                        d = c.recv(4096)
+                        if not d:
+                            closed = True
+                            break
+                        got += d
+                except socket.timeout:
+                    ctx.note('loopback: timeout waiting for the server (inconclusive, skipped)')
+                    continue
+            if got != expected:
+                ctx.fail('loopback_relay', 'real TCP server: bytes received by the client differ from the '
+                         'stream specification' + (' (connection closed by the server)' if closed else ''),
+                         dict(loopback=True, stream=full.hex(), stream_text=full.decode('latin-1'),
+                              segments=[len(s) for s in segs], got=got.hex(), expected=expected.hex()))
+                return
+            thread.join(30)
+            if thread.is_alive():
+                ctx.fail('loopback_stop', 'real TCP server: request loops still running 30 s after '
+                         '$system_stop%%%%% was acknowledged',
+                         dict(loopback=True, stream=full.hex(), segments=[len(s) for s in segs]))
+                return
+            done += 1
+        except OSError as ex:
+            ctx.note('loopback: %s (inconclusive, skipped)' % ex)
+        finally:
+            if srv is not None:
+                try:
+                    if thread is not None and thread.is_alive():
+                        srv.stop()
+                    for s in srv.servers:
+                        s.server_close()
+                except Exception:   # noqa
+                    pass
+            for k, v in saved.items():
+                if v is None:
+                    if k in S.ListenHandler.__dict__:
+                        delattr(S.ListenHandler, k)
+                else:
+                    setattr(S.ListenHandler, k, v)
+    ctx.evaluations += done
+    return done
 
 
 def replay(ctx, obj):
     w = obj['witness']
+    if w.get('loopback'):
+        class C:
+            rng = ctx.rng
+            evaluations = 0
+            failed = False
+
+            def note(self, s):
+                pass
+
+            def fail(self, *a):
+                self.failed = True
+        c = C()
+        loopback(c, 60)
+        return c.failed
     stream = bytes.fromhex(w['stream'])
     outs = [tuple(o) for o in w['outcomes']]
     ops = {k: tuple(v) for k, v in w['ops'].items()}
